@@ -58,11 +58,11 @@ PROPS = {
  'C04': dict(pats=ITER, note='Chunk-level iteration protocols of the three container kinds (forward, reverse, many, unset) as cursors over the container view: next returns the value at the cursor and moves to the least greater member, peekNext does not move, advanceIfNeeded never moves backwards.'),
  'C05': dict(pats=SIZES + WRITERS + READERS, note='Byte accounting and error propagation of the portable format: size formulas per kind and for the table, the writers against a model writer (bytes appended, count returned, errors reported), the readers on arbitrary byte sources.'),
  'C06': dict(pats=WRITERS + SIZES + [R + r'roaringArray\.readFrom$', R + r'byteSliceAs\w+$'], note='Layout clauses of the writers (cookie, counts, payload bytes little-endian) and the reader.'),
- 'C07': dict(pats=BINOPS + CONV + RA_OWN + MUT + [r'^roaring64\.roaringArray64\.(getWritableContainerAtIndex|appendWithoutCopy|appendCopy\w*|cloneCopyOnWriteContainers|clone|markAllAsNeedingCopyOnWrite)$'] + BM(r'Clone|CloneCopyOnWriteContainers|AndNot|And|Or|Xor|Add|CheckedAdd|Remove|CheckedRemove|AddRange|RemoveRange|Flip|FlipInt|AddMany|Clear|RunOptimize|lazyOR|AndAny') + [R + r'(And|Or|Xor|AndNot|Flip|FastOr|FastAnd|AddOffset\w*)$'],
+ 'C07': dict(pats=BINOPS + CONV + RA_OWN + MUT + [r'^roaring64\.roaringArray64\.(getWritableContainerAtIndex|appendWithoutCopy|appendCopy\w*|cloneCopyOnWriteContainers|clone|markAllAsNeedingCopyOnWrite)$'] + BM(r'Clone|CloneCopyOnWriteContainers|AndNot|And|Or|Xor|lazyOR|AndAny') + [R + r'(And|Or|Xor|AndNot|Flip|FastOr|FastAnd)$'],
              kinds=['frame', 'post', 'inv', 'call', 'assert'], note='Non-interference: frame obligations (nothing outside the declared footprint is written: arguments of binary operations are never modified), freshness/ownership postconditions of every container operation (the result shares no storage with an operand unless it IS the receiver), and the copy-on-write discipline of the chunk table (a shared container is flagged in both tables or cloned).'),
  'C08': dict(pats=[R + r'Bitmap\.(FromBuffer|FromUnsafeBytes|FrozenView|MustFrozenView|CloneCopyOnWriteContainers)$', R + r'roaringArray\.(readFrom|frozenView|getWritableContainerAtIndex|cloneCopyOnWriteContainers|getUnionedWritableContainer)$', R + r'byteSliceAs\w+$', r'^internal\.', R + r'Bitmap\.(AndNot|And|Or|Xor|Add|Remove|AddRange|RemoveRange|Flip)$'],
              kinds=['frame', 'post', 'inv', 'call'], note='Buffer-backed bitmaps: the decoders flag every container that aliases the caller bytes as copy-on-write; writable access clones flagged containers; in-place container operations write only into their own representation (frame obligations).'),
- 'C09': dict(pats=VALID + CONV + MUT + BINOPS + RA_MUT + [R + r'lemma_(validNonempty|bitmapSomeBit)$'] + BM(r'Add|CheckedAdd|Remove|CheckedRemove|AddRange|RemoveRange|Flip|FlipInt|AddMany|Clear|RunOptimize|AndNot|And|Or|Xor|Clone') + [R + r'(And|Or|Xor|AndNot|Flip|AddOffset\w*|FromDense)$'], kinds=['post', 'inv', 'call', 'assert'],
+ 'C09': dict(pats=VALID + CONV + MUT + BINOPS + RA_MUT + [R + r'lemma_(validNonempty|bitmapSomeBit)$'] + BM(r'Add|CheckedAdd|Remove|CheckedRemove|AddRange|RemoveRange|Flip|FlipInt|AddMany|Clear|RunOptimize|Clone'), kinds=['post', 'inv', 'call', 'assert'],
              note='Validators characterise well-formedness (validate returns nil exactly on well-formed containers/tables), and every constructive container operation ensures well-formedness of its result (cwf/awf/bwf/rwf clauses).'),
  'C10': dict(pats=READERS + VALID + FROZEN + [r'^roaring64\.Bitmap\.(ReadFrom|FromUnsafeBytes|UnmarshalBinary|FromBase64)$'],
              note='Decoder safety with NO precondition on the bytes: every index, slice, nil, division and allocation-size obligation of the decoding paths, plus validators.'),
